@@ -6,6 +6,18 @@ reader module B is derived from A's inferred declarations (one slot per public v
 function result, per class attribute / method result) and analysed under three configurations
 (stub on the python path, imports-map entry, pickled stub).  TLC (StubImport.tla / TraceC06.tla)
 judges TypeEq(seen, exported) per slot and configuration and the absence of import / pyi errors.
+
+WORLDS (StubWorld.tla generates, StubImport.tla section WORLDS judges): the reader sees a small
+import DAG of analysed modules.  Family "dag": upstream modules m1..mN over two fixture modules,
+importing each other plainly or under alias names that collide across modules; family "gen": a
+generic class with its type parameters in every declaration order, instances produced by annotated
+and inferred functions / variables / a subclass, in the class's module or one module further.  TLC
+exports every world with the reads the spec derives for the reader (attribute / method chains over
+the last module's exports); the driver renders the modules, analyses them in dependency order
+(each sees the earlier ones through their emitted stubs), records every module's inferred
+declarations and what the reader sees under the three configurations; TLC computes the type the
+upstream analyses give to each read (PathType: class lookup, bases, POSITIONAL binding of type
+parameters) and judges TypeEq(seen, that), agreement of the configurations, and errors.
 """
 import argparse
 import json
@@ -152,6 +164,331 @@ def one(src):
     shutil.rmtree(d, ignore_errors=True)
 
 
+# ------------------------------------------------------------------------------------- worlds
+FIX_SRC = {
+    "c1": ("class Cfg:\n  def __init__(self):\n    self.level = 1\n"
+           "class One:\n  def __init__(self):\n    self.level = b'b'\n"),
+    "c2": ("class Cfg:\n  def __init__(self):\n    self.level = 's'\n"
+           "class Two:\n  def __init__(self):\n    self.level = 1.5\n"),
+}
+TAG_LIT = ["1.5", "b't'", "True"]                    # StubImport!TagT
+LIT = {"int": "1", "str": "'s'", "float": "1.5", "bytes": "b'b'", "bool": "True", "complex": "2j"}
+INST1 = ["int", "str", "float"]                      # StubImport!Inst1
+INST2 = ["bytes", "bool", "complex"]                 # StubImport!Inst2
+WANY = ["any", "", []]
+
+
+def _imp_class(imp):
+  if imp["t"] in FIX_SRC:
+    return "Cfg" if imp["c"] == "Cfg" else ("One" if imp["t"] == "c1" else "Two")
+  return "T"
+
+
+def render_world(w):
+  """World (as exported by StubWorld.tla) -> [(module name, source)] of its upstream modules in
+  dependency order (the rendering of StubImport!ModelD's reading of the world)."""
+  out = []
+  if w["fam"] == "dag":
+    for k, imps in enumerate(w["mods"], 1):
+      lines = []
+      body = {"var": [], "fn": [], "meth": []}
+      for i, imp in enumerate(imps, 1):
+        lines.append("import %s" % imp["t"] if not imp["a"] else "import %s as %s" % (imp["t"], imp["a"]))
+        new = "%s.%s()" % (imp["a"] or imp["t"], _imp_class(imp))
+        if imp["u"] == "var":
+          body["var"].append("x%d = %s" % (i, new))
+        elif imp["u"] == "fn":
+          body["fn"].append("def f%d():\n  return %s" % (i, new))
+        else:
+          body["meth"].append("  def g%d(self):\n    return %s" % (i, new))
+      lines.append("class T:\n  def __init__(self):\n    self.tag = %s" % TAG_LIT[k - 1])
+      lines += body["meth"] + body["var"] + body["fn"]
+      out.append(("m%d" % k, "\n".join(lines) + "\n"))
+    return out
+  ps, n = w["params"], len(w["params"])
+  lines = ["from typing import Generic, List, TypeVar"]
+  lines += ["%s = TypeVar(%r)" % (p, p) for p in ps]
+  lines.append("class P(Generic[%s]):" % ", ".join(ps))
+  lines.append("  def __init__(self, %s):" % ", ".join("a%d: %s" % (i, p) for i, p in enumerate(ps, 1)))
+  for i, sh in enumerate(w["shapes"], 1):
+    lines.append("    self.at%d = %s" % (i, "[a%d]" % i if sh == "list" else "a%d" % i))
+  lines.append("    self.n = 0")
+  for i, (p, sh) in enumerate(zip(ps, w["shapes"]), 1):
+    lines.append("  def get%d(self) -> %s:\n    return self.at%d%s" % (i, p, i, "[0]" if sh == "list" else ""))
+  pro = []
+  ref = {"same": "", "plain": "m1.", "alias": "u."}[w["loc"]]
+  if w["loc"] == "plain":
+    pro.append("import m1")
+  elif w["loc"] == "alias":
+    pro.append("import m1 as u")
+  a1 = ", ".join(LIT[t] for t in INST1[:n])
+  a2 = ", ".join(LIT[t] for t in INST2[:n])
+  pro.append("def mk() -> %sP[%s]:\n  return %sP(%s)" % (ref, ", ".join(INST1[:n]), ref, a1))
+  pro.append("def mk2():\n  return %sP(%s)" % (ref, a2))
+  pro.append("p = %sP(%s)" % (ref, a2))
+  if w["sub"]:
+    pro.append("class Q(%sP[%s]):\n  pass" % (ref, ", ".join(INST1[:n])))
+    pro.append("def mkq():\n  return Q(%s)" % a1)
+  if w["loc"] == "same":
+    return [("m1", "\n".join(lines + pro) + "\n")]
+  return [("m1", "\n".join(lines) + "\n"), ("m2", "\n".join(pro) + "\n")]
+
+
+def _ann(t):
+  if t[0] == "gen":
+    return "%s[%s]" % (t[1], ", ".join(_ann(x) for x in t[2]))
+  return t[1]
+
+
+def _ann_modules(t):
+  out = {t[1].rsplit(".", 1)[0]} if "." in t[1] else set()
+  for x in t[2]:
+    out |= _ann_modules(x)
+  return out
+
+
+def render_reader(last, reads):
+  """The reads derived by the spec -> reader module; slot j is variable r<j> or function q<j>."""
+  mods, lines, slots = {last}, [], []
+  for j, r in enumerate(reads, 1):
+    chain = "".join(".%s" % st["n"] if st["k"] == "attr" else ".%s()" % st["n"] for st in r["p"])
+    s = r["s"]
+    if s["k"] == "param":
+      mods |= _ann_modules(s["t"])
+      lines.append("def q%d(o: %s):\n  return o%s" % (j, _ann(s["t"]), chain))
+      slots.append(("ret", "q%d" % j))
+    else:
+      lines.append("r%d = %s.%s%s%s" % (j, last, s["n"], "()" if s["k"] == "call" else "", chain))
+      slots.append(("name", "r%d" % j))
+  return "\n".join(["import %s" % m for m in sorted(mods)] + lines) + "\n", slots
+
+
+def read_src(last, r):
+  return render_reader(last, [r])[0].split("\n", 1)[1].strip().replace("\n", " ")
+
+
+_QBASES = {"list": "list", "set": "set", "frozenset": "frozenset", "dict": "dict",
+           "List": "list", "Set": "set", "FrozenSet": "frozenset", "Dict": "dict",
+           "Sequence": "Sequence", "Iterable": "Iterable", "Mapping": "Mapping"}
+
+
+def qterm(t, mod, local):
+  """pytd type node -> world type term: module qualification kept (names of `local` classes of
+  module `mod` are qualified), user generic classes and type parameters are described."""
+  from pytype.pytd import pytd
+
+  def short(n):
+    for pre in ("builtins.", "typing.", "collections.abc."):
+      if n.startswith(pre):
+        return n[len(pre):], True
+    return n, False
+
+  def q(n):
+    return "%s.%s" % (mod, n) if n in local else n
+
+  def go(t):
+    if isinstance(t, pytd.AnythingType):
+      return WANY
+    if isinstance(t, pytd.NothingType):
+      return ["nothing", "", []]
+    if isinstance(t, pytd.TypeParameter):
+      return ["tparam", t.name.rsplit(".", 1)[-1], []]
+    if isinstance(t, pytd.UnionType):
+      return ["union", "", [go(x) for x in t.type_list]]
+    if isinstance(t, pytd.CallableType):
+      return ["callable", "", []]
+    if isinstance(t, pytd.TupleType):
+      return ["tuple", "", [go(x) for x in t.parameters]]
+    if isinstance(t, pytd.GenericType):
+      base, builtin = short(t.base_type.name)
+      if builtin and base == "tuple":
+        return ["gen", "tuplevar", [go(t.parameters[0])]]
+      if builtin and base == "type":
+        return ["type", "", [go(t.parameters[0])]]
+      if builtin:
+        return ["gen", _QBASES[base], [go(x) for x in t.parameters]] if base in _QBASES else WANY
+      return ["gen", q(base), [go(x) for x in t.parameters]]
+    if isinstance(t, (pytd.ClassType, pytd.NamedType, pytd.LateType)):
+      n, builtin = short(t.name)
+      if builtin and n == "Any":
+        return WANY
+      if builtin and n == "None":
+        n = "NoneType"
+      return ["cls", n if builtin else q(n), []]
+    return WANY
+  return go(t)
+
+
+def decl_tables(mod, ast):
+  """Inferred AST of module `mod` -> (names, frets, classes) in StubImport's table format."""
+  from pytype.pytd import pytd
+  local = {c.name for c in ast.classes}
+  names = {c.name: qterm(c.type, mod, local) for c in ast.constants}
+  frets = {f.name: qterm(f.signatures[0].return_type, mod, local)
+           for f in ast.functions if len(f.signatures) == 1}
+  classes = {}
+  for c in ast.classes:
+    bases = []
+    for b in c.bases:
+      bn = b.base_type.name if isinstance(b, pytd.GenericType) else getattr(b, "name", "")
+      if bn.startswith(("builtins.", "typing.")) or not bn:
+        continue
+      bases.append(qterm(b, mod, local))
+    attrs = {k.name: qterm(k.type, mod, local) for k in c.constants}
+    rets = {m.name: qterm(m.signatures[0].return_type, mod, local)
+            for m in c.methods if len(m.signatures) == 1}
+    attrs["_"] = WANY          # (the JSON bridge has no empty record)
+    rets["_"] = WANY
+    classes["%s.%s" % (mod, c.name)] = {
+        "tpl": [x.name.rsplit(".", 1)[-1] for x in c.template], "bases": bases,
+        "attrs": attrs, "rets": rets}
+  names["_"] = WANY
+  frets["_"] = WANY
+  return names, frets, classes
+
+
+_FIX = {}
+
+
+def _analyse_upstream(name, src, d):
+  """Analyse one upstream module seeing the earlier ones through their .pyi stubs in d; write its
+  stub as text and as pickled AST into d.  Returns (inferred ast, pyi text)."""
+  from pytype import io as pio
+  from pytype import load_pytd
+  from pytype.imports import pickle_utils
+  from pytype.pytd import serialize_ast
+  o = pyt.options(module_name=name, pythonpath=d)
+  ld = load_pytd.create_loader(o)
+  ret, pyi = pio.generate_pyi(src, o, ld)
+  errs = [e.name for e in ret.context.errorlog.unique_sorted_errors()]
+  with open(os.path.join(d, name + ".pyi"), "w") as f:
+    f.write(pyi)
+  exp = serialize_ast.PrepareForExport(name, ret.ast, ld)
+  pickle_utils.SerializeAndSave(exp, os.path.join(d, name + ".pickled"))
+  return ret.ast, pyi, errs
+
+
+def world_one(case):
+  """Worker: the C06 lifecycle for one world.  Returns a picklable record."""
+  boot.boot()
+  from pytype import io as pio
+  from pytype import load_pytd
+  w, reads = case["w"], case["reads"]
+  d = tempfile.mkdtemp(prefix="c06w-", dir=os.path.join(common.VERIF, "build"))
+  try:
+    classes, pyis, srcs = {}, {}, {}
+    order = []
+    if w["fam"] == "dag":
+      if not _FIX:              # the fixture modules are the same in every world: analyse them once
+        fd = tempfile.mkdtemp(prefix="c06f-", dir=os.path.join(common.VERIF, "build"))
+        try:
+          for name, src in sorted(FIX_SRC.items()):
+            ast, pyi, errs = _analyse_upstream(name, src, fd)
+            with open(os.path.join(fd, name + ".pickled"), "rb") as f:
+              _FIX[name] = (pyi, f.read(), decl_tables(name, ast)[2], errs)
+        finally:
+          shutil.rmtree(fd, ignore_errors=True)
+      for name, (pyi, blob, cls, errs) in sorted(_FIX.items()):
+        with open(os.path.join(d, name + ".pyi"), "w") as f:
+          f.write(pyi)
+        with open(os.path.join(d, name + ".pickled"), "wb") as f:
+          f.write(blob)
+        classes.update(cls)
+        pyis[name] = pyi
+        srcs[name] = FIX_SRC[name]
+        order.append(name)
+        if errs:
+          return {"skip": "fixture %s has errors %s" % (name, errs)}
+    names = frets = None
+    for name, src in render_world(w):
+      srcs[name] = src
+      try:
+        ast, pyi, errs = _analyse_upstream(name, src, d)
+      except Exception as e:  # pylint: disable=broad-except
+        return {"upfail": "%s: %s: %s" % (name, type(e).__name__, str(e)[:300]), "w": w, "srcs": srcs}
+      if errs:
+        return {"upfail": "%s: errors %s" % (name, errs), "w": w, "srcs": srcs}
+      names, frets, cls = decl_tables(name, ast)
+      classes.update(cls)
+      pyis[name] = pyi
+      order.append(name)
+    last = order[-1]
+    bsrc, slots = render_reader(last, reads)
+    seen, errs, pyiB = {}, {}, {}
+    for cfg in CONFIGS:
+      if cfg == "pythonpath":
+        o = pyt.options(module_name="b", pythonpath=d)
+      elif cfg == "imports_map":
+        o = pyt.options(module_name="b",
+                        imports_map_items=[(m, os.path.join(d, m + ".pyi")) for m in order])
+      else:
+        o = pyt.options(module_name="b", use_pickled_files=True,
+                        imports_map_items=[(m, os.path.join(d, m + ".pickled")) for m in order])
+      try:
+        retB, pb = pio.generate_pyi(bsrc, o, load_pytd.create_loader(o))
+      except Exception as e:  # pylint: disable=broad-except
+        return {"crash": "B under %s: %s: %s" % (cfg, type(e).__name__, str(e)[:300]),
+                "w": w, "srcs": srcs, "bsrc": bsrc, "pyis": pyis}
+      cs = {c.name: qterm(c.type, "b", ()) for c in retB.ast.constants}
+      fs = {}
+      for f in retB.ast.functions:
+        ts = [qterm(s.return_type, "b", ()) for s in f.signatures]
+        fs[f.name] = ts[0] if len(ts) == 1 else ["union", "", ts]
+      seen[cfg] = [(cs if kind == "name" else fs).get(n, ["missing", "", []]) for kind, n in slots]
+      errs[cfg] = [e.name for e in retB.context.errorlog.unique_sorted_errors()]
+      pyiB[cfg] = pb
+    return {"case": {"fam": w["fam"], "w": w, "reads": reads,
+                     "decls": {"names": names, "frets": frets, "classes": classes},
+                     "seen": seen, "errs": errs},
+            "srcs": srcs, "pyis": pyis, "bsrc": bsrc, "pyiB": pyiB, "last": last,
+            "collide": case["collide"], "nonalpha": case["nonalpha"]}
+  finally:
+    shutil.rmtree(d, ignore_errors=True)
+
+
+def world_cfg(family, **kw):
+  d = dict(Family='"%s"' % family, NUp=2, MinImpI=1, MaxImpI=1, MinImpL=2, MaxImpL=2,
+           AliasNames='{"u"}', UsesInner='{"meth"}', UsesLast='{"var", "fn"}',
+           FixClasses='{"Cfg"}', TVarNames='{"K", "T", "V"}', MaxParams=2,
+           AttrShapes='{"plain", "list"}', Locs='{"same", "alias"}', Subs="{TRUE, FALSE}")
+  d.update(kw)
+  return ("INIT Init\nNEXT Next\nCONSTANTS\n" + "".join(" %s = %s\n" % kv for kv in sorted(d.items()))
+          + "INVARIANT WellFormed\nINVARIANT Closed\nINVARIANT ExportInv\n")
+
+
+WIDE_DAG = dict(NUp=3, MinImpI=1, MaxImpI=2, MinImpL=1, MaxImpL=2, AliasNames='{"u", "w"}',
+                UsesInner='{"var", "fn", "meth"}', UsesLast='{"var", "fn", "meth"}',
+                FixClasses='{"Cfg", "Own"}')
+WIDE_GEN = dict(MaxParams=3, Locs='{"same", "plain", "alias"}')
+NSLICES = 16
+
+
+def any_one(item):
+  return world_one(item) if isinstance(item, dict) else one(item)
+
+
+def _t(t):
+  """Compact rendering of a type term for keys and messages."""
+  if t[0] in ("cls", "tparam"):
+    return t[1]
+  if t[0] in ("any", "missing", "unknown", "nothing", "callable"):
+    return t[0]
+  if t[0] == "union":
+    return "|".join(sorted(_t(x) for x in t[2]))
+  return "%s[%s]" % (t[1] or t[0], ",".join(_t(x) for x in t[2]))
+
+
+def world_text(w):
+  if w["fam"] == "dag":
+    return "; ".join("m%d: %s" % (k, ", ".join(
+        "import %s%s -> %s" % (i["t"], " as " + i["a"] if i["a"] else "", i["u"]) for i in imps))
+                     for k, imps in enumerate(w["mods"], 1))
+  return "class P(Generic[%s]) attrs %s, producers %s%s" % (
+      ", ".join(w["params"]), "/".join(w["shapes"]),
+      {"same": "in P's module", "plain": "in m2 (import m1)", "alias": "in m2 (import m1 as u)"}[w["loc"]],
+      ", subclass Q" if w["sub"] else "")
+
+
 def main():
   ap = argparse.ArgumentParser()
   ap.add_argument("--tier", default="quick")
@@ -160,25 +497,68 @@ def main():
   run = common.Run(PID, "translation_validation", a.tier)
   boot.boot()
   thorough = run.tier == "thorough"
+  import concurrent.futures as cf
   import c01
   srcs = []
+  worlds = []
   if a.replay:
     with open(a.replay) as f:
-      srcs = [json.load(f)["case"]["src"]]
+      case = json.load(f)["case"]
+    if "world" in case:
+      worlds = [case["world"]]
+    else:
+      srcs = [case["src"]]
   else:
-    plan = [(8, 2, 1500 if thorough else 110), (12, 2, 1500 if thorough else 70)]
-    for j, (ns, dpt, num) in enumerate(plan):
-      r = tlc.run("ProgGen", c01.gen_cfg(ns, dpt), workers=1, timeout=3000,
-                  seed=run.seed * 11 + 100 + j, simulate="num=%d" % num, depth=ns + 3)
-      common.require(not r.violated and len(r.cases) >= num, "ProgGen failed")
+    # The corpus is FIXED: NSLICES slices, every TLC seed derived from the slice number only.  quick
+    # runs the slice VERIF_SEED mod NSLICES (plus the exhaustive world cores, which do not depend on
+    # the seed), thorough all of them.
+    slices = list(range(NSLICES)) if thorough else [run.seed % NSLICES]
+    run.put("corpus_slices", slices)
+    jobs = []
+    for sl in slices:
+      for j, (ns, dpt, num) in enumerate([(8, 2, 110), (12, 2, 70)]):
+        jobs.append(("prog", "ProgGen", c01.gen_cfg(ns, dpt),
+                     dict(seed=sl * 11 + 100 + j, simulate="num=%d" % num, depth=ns + 3), num))
+      jobs.append(("dag", "StubWorld", world_cfg("dag", **WIDE_DAG),
+                   dict(seed=7000 + sl, simulate="num=30", depth=14), 10))
+      if not thorough:
+        jobs.append(("gen", "StubWorld", world_cfg("gen", **WIDE_GEN),
+                     dict(seed=7100 + sl, simulate="num=10", depth=6), 4))
+    if thorough:
+      jobs.append(("dag", "StubWorld", world_cfg("dag", MinImpL=1, UsesInner='{"var", "meth"}',
+                                                 UsesLast='{"var", "fn", "meth"}'), {}, 900))
+      jobs.append(("gen", "StubWorld", world_cfg("gen", **WIDE_GEN), {}, 460))
+    else:
+      jobs.append(("dag", "StubWorld", world_cfg("dag"), {}, 192))
+      jobs.append(("gen", "StubWorld", world_cfg("gen"), {}, 120))
+
+    def gen(job):
+      kind, module, cfg, kw, least = job
+      r = tlc.run(module, cfg, workers=1, timeout=3000, **kw)
+      common.require(not r.violated and len(r.cases) >= least,
+                     "%s failed (%s, %d cases)\n%s" % (module, r.violated, len(r.cases), r.out[-1500:]))
+      return kind, r
+    with cf.ThreadPoolExecutor(max_workers=4) as ex:
+      res = list(ex.map(gen, jobs))
+    seen_w = set()
+    for kind, r in res:
       run.add("states", r.generated)
-      for c in r.cases:
-        rec = progterms.run_program(c["p"])
-        if rec:
-          srcs.append(rec["src"])
+      if kind == "prog":
+        for c in r.cases:
+          rec = progterms.run_program(c["p"])
+          if rec:
+            srcs.append(rec["src"])
+      else:
+        run.add("world_model_states", r.distinct)
+        for c in r.cases:
+          k = json.dumps(c["w"], sort_keys=True)
+          if k not in seen_w:
+            seen_w.add(k)
+            worlds.append(c)
   run.put("upstream_programs", len(srcs))
+  run.put("worlds", len(worlds))
   os.makedirs(os.path.join(common.VERIF, "build"), exist_ok=True)
-  results = pyt.batch(one, srcs, procs=8, chunksize=2)
+  results = pyt.batch(any_one, worlds + srcs, procs=8, chunksize=2)
   cases = []
   keep = []
   for res in results:
@@ -187,26 +567,110 @@ def main():
       if "src" in res:
         run.diverge({"note": res["skip"], "src": res["src"], "pyiA": res["pyiA"]})
       continue
+    if "upfail" in res:
+      # an upstream module of a world is not analysed cleanly: nothing to read through its stub
+      run.add("worlds_upstream_failed")
+      run.diverge({"note": res["upfail"], "w": res["w"], "srcs": res["srcs"]})
+      continue
     if "crash" in res:
       run.violation("C06:crash:" + res["crash"][:60], res["crash"], res)
       continue
-    cases.append({"slots": [{"n": s["n"], "k": s["k"], "ta": s["ta"], "tb": s["tb"]}
-                            for s in res["slots"]],
-                  "errs": res["errs"]})
+    if "case" in res:
+      cases.append(res["case"])
+    else:
+      cases.append({"fam": "prog",
+                    "slots": [{"n": s["n"], "k": s["k"], "ta": s["ta"], "tb": s["tb"]}
+                              for s in res["slots"]],
+                    "errs": res["errs"]})
     keep.append(res)
-  common.require(len(cases) >= (1 if a.replay else 60), "too few cases: %d" % len(cases))
+  nprog = sum(1 for c in cases if c["fam"] == "prog")
+  if not a.replay:
+    common.require(nprog >= 60 * len(run.cov["corpus_slices"]), "too few cases: %d" % nprog)
+  common.require(cases, "no case")
   nv, bad, r = tlc.validate_cases("TraceC06", cases, cfg=TRACE_CFG, timeout=3000, heap="6g")
   common.require(bad is None, "TraceC06 invariant cannot fail")
-  nslots = sum(len(c["slots"]) for c in cases)
+  nslots = sum(len(c["slots"]) for c in cases if c["fam"] == "prog")
+  judged = {st["i"]: st["judged"] for st in tlc.parse_cases(r.out, "STAT")}
+  wcases = [(n, c) for n, c in enumerate(cases, 1) if c["fam"] != "prog"]
+  common.require(all(n in judged for n, _ in wcases), "TraceC06 did not report on every world")
+  nreads = sum(len(c["reads"]) for _, c in wcases)
+  njudged = sum(judged[n] for n, _ in wcases)
   run.put("programs", len(cases))
-  run.put("disagreements_checked", nslots * 3)
+  run.put("disagreements_checked", (nslots + nreads) * 3)
   run.put("slots", nslots)
+  run.put("world_cases", len(wcases))
+  run.put("world_reads", nreads)
+  run.put("world_reads_judged", njudged)
   run.put("evaluations", len(cases))
-  run.put("distinct_nontrivial", len({k["src"] for k in keep if len(k["slots"]) >= 3}))
-  run.put("rule", "one case = one upstream program x 3 configurations; non-trivial = >= 3 reader slots")
-  run.sample({"A": keep[0]["src"][:600], "B": keep[0]["bsrc"][:600], "slots": keep[0]["slots"][:3]})
+  run.put("distinct_nontrivial",
+          len({k["src"] for k in keep if "slots" in k and len(k["slots"]) >= 3})
+          + sum(1 for n, _ in wcases if judged[n] >= 3))
+  run.put("rule", "one case = one upstream program (or one world of upstream modules) x 3 "
+                  "configurations; non-trivial = >= 3 reader slots (reads judged by TLC)")
+  if not a.replay:
+    # vacuity guards of the world families: alias names that collide across modules must have been
+    # read through, and so must generic classes whose parameters are not in alphabetical order
+    ncol = sum(judged[n] for n, c in wcases if c["fam"] == "dag" and keep[n - 1]["collide"])
+    nna = sum(judged[n] for n, c in wcases if c["fam"] == "gen" and keep[n - 1]["nonalpha"])
+    ndag = sum(1 for _, c in wcases if c["fam"] == "dag")
+    ngen = sum(1 for _, c in wcases if c["fam"] == "gen")
+    run.put("dag_worlds", ndag)
+    run.put("gen_worlds", ngen)
+    run.put("reads_judged_in_alias_collision_worlds", ncol)
+    run.put("reads_judged_in_nonalphabetical_generic_worlds", nna)
+    common.require(ndag >= 190 and ngen >= 120, "too few worlds: dag %d gen %d" % (ndag, ngen))
+    common.require(ncol >= 200, "alias collisions across modules were not exercised (%d reads)" % ncol)
+    common.require(nna >= 500, "non-alphabetical generic templates were not exercised (%d reads)" % nna)
+    common.require(njudged * 10 >= nreads * 9, "too many reads the upstream declarations do not type: "
+                   "%d of %d judged" % (njudged, nreads))
+  for k in keep:
+    if "slots" in k:
+      run.sample({"A": k["src"][:600], "B": k["bsrc"][:600], "slots": k["slots"][:3]})
+      break
+  for fam in ("dag", "gen"):
+    for k in keep:
+      if "case" in k and k["case"]["fam"] == fam and (k["collide"] or k["nonalpha"]):
+        run.sample({"world": world_text(k["case"]["w"]), "modules": k["srcs"], "B": k["bsrc"][:500],
+                    "seen": {c: [_t(t) for t in v] for c, v in k["case"]["seen"].items()}})
+        break
+  npred = 0
   for rb in tlc.parse_cases(r.out, "BAD"):
     res = keep[rb["i"] - 1]
+    if "case" in res:
+      c = res["case"]
+      w = c["w"]
+      wt = world_text(w)
+      payload = {"world": {"w": w, "reads": c["reads"], "collide": res["collide"],
+                           "nonalpha": res["nonalpha"]},
+                 "modules": res["srcs"], "stubs": res["pyis"], "bsrc": res["bsrc"], "pyiB": res["pyiB"]}
+      for f in rb["fails"]:
+        if f[0] == "mach:reads":
+          raise common.Machinery("the reads replayed for world %s are not the spec's Derive" % wt)
+        if f[0] == "pred":
+          npred += 1
+          run.diverge({"note": "upstream declarations differ from the world model", "world": wt,
+                       "read": read_src(res["last"], c["reads"][f[1] - 1]),
+                       "recorded": rb["exp"][f[1] - 1]})
+          continue
+        if f[0] == "error":
+          run.violation("C06:%s:error:%s:%s" % (w["fam"], f[1], f[2]),
+                        "world [%s]: B's analysis under %s reports %s" % (wt, f[2], f[1]),
+                        dict(payload, fail=f))
+          continue
+        rd = read_src(res["last"], c["reads"][f[1] - 1])
+        if f[0] == "wtype":
+          e, sn = rb["exp"][f[1] - 1], c["seen"][f[2]][f[1] - 1]
+          run.violation("C06:%s:type:%s:%s->%s" % (w["fam"], f[2], _t(e), _t(sn)),
+                        "world [%s]: read `%s`: the upstream analyses give %s, B (%s) sees %s"
+                        % (wt, rd, _t(e), f[2], _t(sn)), dict(payload, fail=f))
+        else:
+          c1, c2 = f[2].split("/")
+          run.violation("C06:%s:configs-disagree:%s:%s!=%s" % (
+              w["fam"], f[2], _t(c["seen"][c1][f[1] - 1]), _t(c["seen"][c2][f[1] - 1])),
+                        "world [%s]: read `%s`: B sees %s under %s but %s under %s" % (
+                            wt, rd, _t(c["seen"][c1][f[1] - 1]), c1, _t(c["seen"][c2][f[1] - 1]), c2),
+                        dict(payload, fail=f))
+      continue
     for f in rb["fails"]:
       if f[0] == "type:none-attr-any":
         s = res["slots"][f[1] - 1]
@@ -217,11 +681,18 @@ def main():
         key = "C06:type:%s:%s->%s" % (f[2], json.dumps(s["ta"], separators=(",", ":")),
                                       json.dumps(s["tb"][f[2]], separators=(",", ":")))
         what = "slot %s: A inferred %s, B (%s) sees %s" % (s["n"], s["ta"], f[2], s["tb"][f[2]])
+      elif f[0] == "agree":
+        s = res["slots"][f[1] - 1]
+        c1, c2 = f[2].split("/")
+        key = "C06:configs-disagree:%s:%s!=%s" % (f[2], json.dumps(s["tb"][c1], separators=(",", ":")),
+                                                  json.dumps(s["tb"][c2], separators=(",", ":")))
+        what = "slot %s: B sees %s under %s but %s under %s" % (s["n"], s["tb"][c1], c1, s["tb"][c2], c2)
       else:
         key = "C06:error:%s:%s" % (f[1], f[2])
         what = "B's analysis under %s reports %s" % (f[2], f[1])
       run.violation(key, what, {"src": res["src"], "bsrc": res["bsrc"], "pyiA": res["pyiA"],
                                 "pyiB": res["pyiB"], "fail": f})
+  run.put("world_model_mismatches", npred)
   return run.finish()
 
 
